@@ -38,6 +38,8 @@ type fileCtx struct {
 	selID   int
 
 	sharedCache map[*ast.BlockStmt]*types.Var
+
+	extraImports map[string]string // import path -> private alias, for types the file cannot name otherwise
 }
 
 var (
@@ -100,8 +102,16 @@ func (f *fileCtx) typeString(t types.Type, at token.Pos) string {
 		}
 		n, ok := f.importName(p.Path())
 		if !ok {
-			bad = true
-			return p.Name()
+			// the file does not import the package that declares this type: import it under a private name
+			if f.extraImports == nil {
+				f.extraImports = map[string]string{}
+			}
+			a, have := f.extraImports[p.Path()]
+			if !have {
+				a = fmt.Sprintf("verifimp%d", len(f.extraImports))
+				f.extraImports[p.Path()] = a
+			}
+			return a
 		}
 		return n
 	})
@@ -662,6 +672,12 @@ func writeResetRegistrations() {
 func (f *fileCtx) apply() []byte {
 	// import + keepers
 	imp := "\nimport simrt \"" + simrtPath + "\"\n"
+	var extra []string
+	for path, alias := range f.extraImports {
+		extra = append(extra, fmt.Sprintf("import %s %q\n", alias, path))
+	}
+	sort.Strings(extra)
+	imp += strings.Join(extra, "")
 	f.insOff(f.off(f.file.Name.End()), imp)
 	var keepers []string
 	for path := range f.keep {
@@ -981,11 +997,16 @@ func (f *fileCtx) process() {
 				f.ins(x.End(), "; simrt.Post()")
 				stats["range_chan"]++
 			case *types.Map:
+				var lab *ast.LabeledStmt
 				if !inList(x, par) {
-					fail(fset, x.Pos(), "range-over-map not in a statement list (labeled?)")
-					break
+					l, isLab := par.(*ast.LabeledStmt)
+					if !isLab || !inList(l, parent(2)) {
+						fail(fset, x.Pos(), "range-over-map not in a statement list")
+						break
+					}
+					lab = l
 				}
-				f.rewriteMapRange(x, u)
+				f.rewriteMapRange(x, u, lab)
 			}
 		case *ast.CallExpr:
 			// make([]byte, n) with a run-time length: goes through the simulated allocator so that
@@ -1124,10 +1145,18 @@ func (f *fileCtx) rewriteGo(g *ast.GoStmt) {
 	stats["go"]++
 }
 
-func (f *fileCtx) rewriteMapRange(x *ast.RangeStmt, m *types.Map) {
+func (f *fileCtx) rewriteMapRange(x *ast.RangeStmt, m *types.Map, lab *ast.LabeledStmt) {
 	fset := f.pkg.Fset
+	// a label stays on the loop statement it names (continue/break L), which is the generated inner for
+	label, from := "", x.Pos()
+	if lab != nil {
+		label, from = lab.Label.Name+": ", lab.Pos()
+	}
 	if x.Key == nil {
-		fail(fset, x.Pos(), "range over map without key variable")
+		// for range m: only the number of iterations matters
+		f.repl(from, x.Body.Lbrace+1, fmt.Sprintf("{ %sfor _simi := 0; _simi < len(%s); _simi++ { ", label, f.text(x.X)))
+		f.ins(x.End(), " }")
+		stats["range_map"]++
 		return
 	}
 	var sorter string
@@ -1144,16 +1173,26 @@ func (f *fileCtx) rewriteMapRange(x *ast.RangeStmt, m *types.Map) {
 		}
 	}
 	if sorter == "" || m.Key() != m.Key().Underlying() {
-		fail(fset, x.Pos(), "range over map with key type %s: no canonical order", m.Key())
-		return
+		// any other key type: order by the printed key (reflection). Keys whose printed form is an address have no
+		// order that survives a process boundary.
+		switch m.Key().Underlying().(type) {
+		case *types.Pointer, *types.Chan, *types.Interface, *types.Signature:
+			fail(fset, x.Pos(), "range over map with key type %s: no canonical order", m.Key())
+			return
+		}
+		sorter = "SortPrinted"
 	}
 	kt := f.typeString(m.Key(), x.Pos())
 	id := f.selID
 	f.selID++
 	mv := fmt.Sprintf("_simm%d", id)
 	ks := fmt.Sprintf("_simks%d", id)
-	head := fmt.Sprintf("{ %s := %s; %s := make([]%s, 0, len(%s)); for _simk := range %s { %s = append(%s, _simk) }; simrt.%s(%s); for _, _simi := range simrt.MapOrder(len(%s)) { ",
-		mv, f.text(x.X), ks, kt, mv, mv, ks, ks, sorter, ks, ks)
+	sortArg := ks
+	if sorter == "SortPrinted" {
+		sortArg = "&" + ks
+	}
+	head := fmt.Sprintf("{ %s := %s; %s := make([]%s, 0, len(%s)); for _simk := range %s { %s = append(%s, _simk) }; simrt.%s(%s); %sfor _, _simi := range simrt.MapOrder(len(%s)) { ",
+		mv, f.text(x.X), ks, kt, mv, mv, ks, ks, sorter, sortArg, label, ks)
 	op := ":="
 	if x.Tok == token.ASSIGN {
 		op = "="
@@ -1175,7 +1214,7 @@ func (f *fileCtx) rewriteMapRange(x *ast.RangeStmt, m *types.Map) {
 	} else {
 		head += fmt.Sprintf("if _, _simok := %s[%s]; !_simok { continue }; ", mv, keyRef)
 	}
-	f.repl(x.Pos(), x.Body.Lbrace+1, head)
+	f.repl(from, x.Body.Lbrace+1, head)
 	f.ins(x.End(), " }")
 	stats["range_map"]++
 }
